@@ -43,6 +43,9 @@ def run(repo, rep, tier):
         "homogeneity is what __mul__ implements. That floats adjacent to an edge land in the numerically right bin, and sums "
         "'up to rounding', are NOT decided."
     )
+    rep.extra["explanation"] += " " + (
+        'Later additions: a numeric datum never makes fill raise (R5.1); shared rules R5.5 (C03: input arrays never written), R5.6/R5.7 (C07: += updates the child and shares nothing with the right operand).'
+    )
     rep.not_decided += ["floats adjacent to edges landing in the numerically right bin", "sums up to floating-point rounding"]
     rep.assumptions += ["np.histogram(q, n, (lo, hi)) keeps lo <= q <= hi and closes the last bin; explicit edges are [e_i, e_{i+1}) with the last closed",
                         "np.unique partitions the selected rows by value; NaN/inf cast to int64 gives INT64_MIN (the x86 behaviour the code assumes through LONG_NAN)"]
